@@ -109,21 +109,27 @@ pub trait Terminal: Write + Send {
                     return Err(error.into());
                 }
                 Ok(event) => {
-                    // allocate new renderer on resize
-                    if let Some(TerminalEvent::Resize(_)) = event {
-                        renderer.clear(self)?;
-                        renderer = TerminalRenderer::new(self, true)?;
-                    }
                     // drop frames if we are too far behind
                     //
-                    // NOTE: this must happen before handler is called, as clearing
-                    //       renderer also erases everything drawn on its surface.
-                    if self.frames_pending() > TERMINAL_FRAMES_DROP {
+                    // NOTE: this must happen before anything else is sent to the
+                    //       terminal, as dropping also discards output that is not
+                    //       flushed yet (for example image erasure issued by `clear`).
+                    let frames_dropped = self.frames_pending() > TERMINAL_FRAMES_DROP;
+                    if frames_dropped {
                         tracing::warn!(
                             "[Terminal.run_render] dropping frames: {}",
                             self.frames_pending()
                         );
                         self.frames_drop();
+                    }
+                    // allocate new renderer on resize
+                    //
+                    // NOTE: clearing must happen before handler is called, as clearing
+                    //       renderer also erases everything drawn on its surface.
+                    if let Some(TerminalEvent::Resize(_)) = event {
+                        renderer.clear(self)?;
+                        renderer = TerminalRenderer::new(self, true)?;
+                    } else if frames_dropped {
                         renderer.clear(self)?;
                     }
                     // handle event
